@@ -16,6 +16,9 @@ type Edit struct {
 	Changed bool   // false when the edited object still Equals the original (trivial)
 }
 
+// Elem is one named group element of a proof (compressed encoding, hex).
+type Elem struct{ Name, Hex string }
+
 type Ops struct {
 	ID   ecc.ID
 	Name string
@@ -39,6 +42,9 @@ type Ops struct {
 	PlonkProofEqual   func(a, b any) bool
 	PlonkNbQcp        func(vk any) int
 	PlonkDeclaredLens func(b []byte) []uint32
+
+	G16Elems   func(p any) []Elem
+	PlonkElems func(p any) []Elem
 
 	// extended per-property entry points are added as separate fields below
 	Ext map[string]any
